@@ -13,7 +13,7 @@ RULE = ("(a) heap.h in process with the player's comparator: every sequence of <
         "player's pop/re-insert pattern; oracle: multiset model (pop returns a minimal key, NULL iff empty, size) "
         "and after every operation a tree walk (parent links, heap order, complete shape, node count).  "
         "(b) ovnidump/ovnitop on 0-8 streams of 0-30 arbitrary events with heavy cross-stream clock ties, empty "
-        "streams, time scales from 1 ns to 70 s between events (clock differences beyond 32 bits), nested stream directories, two creation orders (in a third to a half of the cases the second layout keeps one top-level directory elsewhere and reaches it through a symbolic link): output is a valid merge (non-decreasing clock, "
+        "streams, time scales from 1 ns to 70 s between events (clock differences beyond 32 bits), nested stream directories, two creation orders (in a third to a half of the cases the second layout keeps one top-level directory elsewhere and reaches it through a symbolic link; the emulator part does the same with the first loom directory in a quarter of its cases): output is a valid merge (non-decreasing clock, "
         "every event once, per-stream order kept), identical for both creation orders; ovnitop counts = multiset. "
         "(b') the text-mode dump lists exactly the events of the hex-mode dump, also well-formed events it cannot render (labels of 1000-5000 characters).  (c) ovniemu with 1-3 looms and clock-offsets.txt (negative, zero, large; hosts whose own clocks are hours apart; corrected origins that are negative or exactly 0; clocks beyond 2^53), tracer-dye marks: lines of "
         "thread.prv in file order are a valid merge in corrected time, each time = corrected - corrected(first), "
@@ -314,7 +314,9 @@ def emu_cases(draw):
     order = list(draw(st.permutations(list(range(len(streams))))))
     # (without the table the far hosts would really be hours apart, which the emulator refuses by design)
     use_offsets = (offsets or None) if (far or neg or zero or draw(st.integers(0, 4)) != 0) else None
-    return {"streams": streams, "offsets": use_offsets, "mkorder": order}
+    return {"streams": streams, "offsets": use_offsets, "mkorder": order,
+            # the second layout reaches the first loom directory through a symbolic link
+            "symlink": draw(st.integers(0, 3)) == 0}
 
 
 def run_emu(case, ctx):
@@ -337,7 +339,19 @@ def run_emu(case, ctx):
                 flags = ["-c", os.path.join(d, "offsets-elsewhere.txt"), "-l"]
             else:
                 T.write_trace(tr, d)
-            r = tools.emu(b, d, flags)
+            away = None
+            comp = "loom.%s" % case["streams"][0]["loom"]
+            if case.get("symlink") and order is case["mkorder"] and os.path.isdir(os.path.join(d, comp)):
+                away = ctx.newdir()
+                os.rename(os.path.join(d, comp), os.path.join(away, comp))
+                os.symlink(os.path.join(away, comp), os.path.join(d, comp))
+            try:
+                r = tools.emu(b, d, flags)
+            finally:
+                if away is not None:
+                    # the outputs stay in d; the streams are not needed any more
+                    os.unlink(os.path.join(d, comp))
+                    ctx.rmdir(away)
             if not r.ok:
                 raise Violation("emulator rejected a sorted trace with offsets: %s" % r.brief())
             try:
@@ -349,7 +363,7 @@ def run_emu(case, ctx):
             ctx.rmdir(d)
     prv = outs[0][0]
     if outs[0][1:] != outs[1][1:]:
-        raise Violation("emulator output depends on the directory creation order")
+        raise Violation("emulator output depends on the directory creation order" + (" or on the first loom directory being a symbolic link" if case.get("symlink") else ""))
     # expected corrected times
     evs = model.merged_events()
     first = min(e[0] for e in evs)
@@ -386,7 +400,7 @@ def run_emu(case, ctx):
         byc.setdefault(ct, set()).add(sidx)
     tie = any(len(v) > 1 for v in byc.values())
     reorder = bool(case.get("offsets")) and any(v != 0 for v in case["offsets"].values())
-    return {"nt": tie or reorder, "cls": ["emu:looms=%d" % len({s["loom"] for s in case["streams"]}),
+    return {"nt": tie or reorder, "cls": (["emu:symlinked-loom"] if case.get("symlink") else []) + ["emu:looms=%d" % len({s["loom"] for s in case["streams"]}),
                                             "emu:ties" if tie else "emu:noties",
                                             "emu:offsets" if case.get("offsets") else "emu:nooffsets"] +
                                            (["emu:negative-corrected-clocks"] if min(e[0] for e in evs) < 0 else []) + (["emu:hosts-hours-apart"] if case.get("offsets") and max(case["offsets"].values()) - min(list(case["offsets"].values()) + [0]) > 3600 * 10 ** 9 else [])}
